@@ -169,11 +169,11 @@ def run(ctx):
         edge_shapes = [(nx, ny) for nx in (1, 2, 3, 4, 5, 7, 8, 12) for ny in (1, 2, 3, 5, 8)]
         runs.append(configs(edge_shapes, 25000, "edge", 100))
     else:
-        big = [(nx, ny) for nx in (16, 24, 25, 32, 45, 64) for ny in (8, 12, 13, 16, 32)] + [(360, 180), (100, 50), (720, 1), (1, 360)]
-        runs.append(configs(small, 1, "full", 10 ** 6) + configs(big, 1, "full", 10 ** 6))
+        big = [(16, 8), (24, 12), (25, 13), (32, 16), (45, 8), (48, 24), (64, 32), (100, 3), (3, 100), (128, 2)]
+        runs.append(configs(small + big + [(256, 4), (5, 200)], 1, "full", 10 ** 6))
         runs.append(configs(small, 2, "full", 10 ** 6))
-        runs.append(configs(small, 3, "full", 10 ** 6))
-        runs.append(configs(small, 25000, "edge", 100) + configs(big, 25000, "edge", 100))
+        runs.append(configs([(nx, ny) for nx in range(1, 13) for ny in (1, 2, 5, 12)], 3, "full", 10 ** 6))
+        runs.append(configs(small + big, 25000, "edge", 100))
         runs.append(configs(small, 10 ** 6, "edge", 10))
     ntab = 0
     for cfgs in runs:
